@@ -49,7 +49,7 @@ COMMON = re.compile(
     r"    (?P<hour>\d{1,2}):(?P<minute>\d{1,2})(?::(?P<second>\d{1,2}))?"
     # Subsecond part (optional)
     "    (?P<subsecondsection>"
-    "        (?:[.|,])"  # Subsecond separator (optional)
+    "        (?:[.,])"  # Subsecond separator (optional)
     r"        (?P<subsecond>\d{1,9})"  # Subsecond
     "    )?"
     ")?"
